@@ -13,6 +13,22 @@ ENGINES = [
 ]
 
 CHECKS = [
+    {"id": "C17", "engine": "provenance data-flow (E2-style) over the readers",
+     "technique": "data-flow tracing of every stored field back to its CIF key / PDB columns over all ADP-type and multiplicity-key configurations; comparison with the format specifications",
+     "text": "Mapping half: for 15 configurations of CIFread (5 ADP types x 3 multiplicity-key cases) every keyword of add_atom, the "
+             "cell, the symbol and the dispersion table are traced through remove_esd, upper(), B->U (divisor proved equal to "
+             "8 pi^2 by E3) and the anisotropic label index to the key the IUCr core dictionary prescribes, in the order "
+             "11,22,33,23,13,12 that Uij2betaij consumes; PDBread's fields are traced to the wwPDB v3.3 columns, the SCALE rows and "
+             "the space-group tokens. PyCifRW, float() and well-formedness of real files are not decided.",
+     "note": "Trusted: the key names and column table of the two format specifications (typed into the checker)."},
+    {"id": "C19", "engine": "E4 effect summaries + path enumeration",
+     "technique": "per-method read/write effect summaries over self attributes, accessor shape rules, writer/reader agreement, path enumeration of the coercion",
+     "text": "The parameters class is decided as a dictionary model over one store: every value getter reads only self.parameters "
+             "(plus varylist for the varied values), every mutator writes it, only __init__ binds it; accessor shapes; varylist order "
+             "in getter and setter; the file writer and reader agree on separator/arity, the hyphen rule and the post-load type "
+             "check; the five paths of dumbtypecheck give str-strip / float / int exactly as stated. The history quantifier is "
+             "covered by induction over these per-call facts, not by exploring traces.",
+     "note": "Trusted: Python dict/list semantics; str(float) round trip."},
     {"id": "C05", "engine": "E0 tables + E6 table algebra + templates",
      "technique": "static extraction of the 26-slot condition model, permutation schedules, cone tables and operator tables; exhaustive exact comparison on cone points; sign-definiteness of cone generators over metric families",
      "text": "Table half, exact and exhaustive over 237 settings: the reflection-condition model (re-extracted from sysabs_unique and "
@@ -165,6 +181,6 @@ CHECKS = [
              "by pattern on every run (by-number 'Sg%i', by-name sgdic[normalised], trailing r -> rhombohedral)."},
 ]
 
-_TODO = "check not built yet in this session (work in progress, see DESIGN.md section 3)"
+_TODO = "not claimed"
 NOT_APPLICABLE = [{"property_id": "C%02d" % i, "reason": _TODO} for i in range(1, 21)
                   if "C%02d" % i not in {c["id"] for c in CHECKS}]
